@@ -175,4 +175,38 @@ func init() {
 		Assumptions: []string{"replicas and revisionHistoryLimit are non-nil (the CRD schema requires/defaults them)", "getPatch/ApplyRevision models as in C03"},
 		OutsideClaim: []string{"huge replica counts (allocation)", "arbitrary template content", "a nil selector (the CRD requires the field)"},
 	})
+
+	register(&spec{
+		ID: "C13", Title: "History is trimmed only beyond the limit and never loses a live revision",
+		Runs: []runSpec{
+			{Name: "history", Pkg: pkgCtl, Func: "VH_History", Quick: []int{2, 1, 3}, Thorough: []int{3, 2, 3},
+				Bounds: func(a []int) string {
+					return fmt.Sprintf("sync(key) over the update revision plus %d more revisions, each with owner in {this set, another controller, none} x {selector labels, labels+upgrade marker, marker only} and an arbitrary revision number in [0,2^40); %d pods each naming any own revision; revisionHistoryLimit arbitrary int32 >= 0", a[0], a[1])
+				},
+				Asserts: []string{"only revisions of this set are deleted", "live revisions are never deleted", "history is trimmed only beyond the limit", "at most revisionHistoryLimit unused revisions remain", "exactly the surplus is deleted"},
+				Covers:  []string{"a revision delete was issued", "reconcile succeeded"}},
+		},
+		Stubs:        ctlStubs,
+		Assumptions:  []string{"creation timestamps of the revisions are equal (ties are broken by name)", "getPatch/ApplyRevision models as in C03"},
+		OutsideClaim: []string{"more revisions than the bound", "revision numbers at the int64 overflow edge"},
+	})
+
+	register(&spec{
+		ID: "C08", Title: "Update revision mirrors the template; scaling edits never cause a restart",
+		Runs: []runSpec{
+			{Name: "revisions", Pkg: pkgCtl, Func: "VH_Revisions", Quick: []int{2, 3}, Thorough: []int{3, 3},
+				Bounds: func(a []int) string {
+					return fmt.Sprintf("%d stored revisions with data in {A,B,C} and arbitrary distinct revision numbers in [1,2^40), template in {A,B,C}, collision count nil/0/1/2, optional engineered name collision with a revision of different data, one follow-up reconcile after each of 5 non-template edits", a[0])
+				},
+				Asserts: []string{"an unchanged template writes no revision", "a rollback renumbers the old revision instead of creating one", "a new template creates a revision",
+					"status.updateRevision names a stored revision of the current template", "a colliding revision of different data is never overwritten", "a non-template edit keeps the update revision"},
+				Covers: []string{"template unchanged", "rollback to an older revision", "new template", "engineered name collision", "non-template edit reconciled"}},
+		},
+		Stubs: ctlStubs,
+		Assumptions: []string{
+			"getPatch is modelled as a deterministic function of the pod template only, ApplyRevision as restoring the recorded template (the real codecs run in the native replay of sampled paths)",
+			"stored revision numbers are distinct and below 2^40",
+		},
+		OutsideClaim: []string{"the clauses 'applying the recorded data reproduces the template exactly' and 'only the template influences the patch' are statements about runtime.Encode/strategic-merge-patch/encoding/json and are not decided (DESIGN.md section 6)", "hash labels that parse as different integers for equal data (D11)"},
+	})
 }
